@@ -97,6 +97,7 @@ def run(tier, seed):
                 if worst > Fraction(1, 10 ** 9) * max(abs(x) for x in ch) and worst > Fraction(1, 2 ** 40) * scale:
                     ctx.violation("c17:bases-differ:" + name, "monomial and Chebyshev outputs denote different polynomials (Chebyshev coefficient differs by %.3e)" % core.fl(worst),
                                   {"generator": name, "args": args, "ensure_bounded": eb})
+    ctx.extra["argument_types"] = dict(G.ARG_TYPES)
     return ctx.finish(
         rule="13 generators x both bases x sampled valid argument tuples: the four (ensure_bounded, return_scale) outputs compared pairwise; for cosine / sine / "
              "1/x the monomial output converted exactly to the Chebyshev basis and compared with the Chebyshev output; distinct = distinct (generator, arguments, basis)")
